@@ -97,9 +97,12 @@ type agg struct {
 	scopes  []*Scope
 	pending []job
 	inflight int
+	deaths  int
 	stop    bool
 	cond    *sync.Cond
 }
+
+const maxDeaths = 3
 
 var deadRe = regexp.MustCompile(`VERIF-DEAD kind=(\w+) scope=(\S+) idx=(\d+)`)
 var atRe = regexp.MustCompile(`(?m)^AT (\d+)$`)
@@ -398,6 +401,17 @@ func RunScopes(env *Env, exe string, scopes []*Scope, jobs []job) *Summary {
 						requeue = append(requeue, job{scope: j.scope, lo: ix + 1, hi: j.hi})
 					}
 				}
+				a.mu.Lock()
+				a.deaths++
+				if a.deaths >= maxDeaths && !a.stop {
+					// every death costs a watchdog period; the run already has its counterexamples
+					a.stop = true
+					a.pending = nil
+					requeue = nil
+					a.sum.Exhaustive = false
+					a.sum.Caps = append(a.sum.Caps, fmt.Sprintf("exploration stopped after %d worker deaths (hangs/crashes), each reported as a violation", a.deaths))
+				}
+				a.mu.Unlock()
 				dead := &shardResult{Scope: j.scope, NViol: 1, Execs: 1,
 					Viol:      []Violation{{Scope: scopes[j.scope].Name, Index: ix, Kind: kind, Detail: detail}},
 					ViolCases: []uint64{ix}}
